@@ -47,6 +47,7 @@ type World struct {
 	mbn              map[*ssa.Function][]*ssa.Return
 	mbnBusy          map[*ssa.Function]bool
 	pinned           map[*ssa.Function]ssa.CallInstruction
+	forceTransp      map[*ssa.Function]bool
 	ifaceByMethod    map[string][]*types.Interface
 	idxSums          map[*ssa.Function]*idxSummary
 	frameBody        map[*ssa.Function]*ssa.Function
@@ -99,7 +100,45 @@ func Load(dir string, patterns []string, env []string) (*World, error) {
 	}
 	sort.Slice(w.repoFns, func(i, j int) bool { return w.repoFns[i].String() < w.repoFns[j].String() })
 	w.nFuncs = len(w.repoFns)
+	w.markCodecHelpers()
 	return w, nil
+}
+
+// markCodecHelpers: exported methods of keyid.KeyID that the KeyID codec (Marshal / Unmarshal) calls statically on its
+// own tree - a public Validate() holding the version lookup and the consistency check - are read like the unexported
+// helpers they are used as. Decided once, before any fact is computed.
+func (w *World) markCodecHelpers() {
+	for _, fn := range w.repoFns {
+		if fn.Pkg == nil || fn.Pkg.Pkg.Path() != RepoMod+"/keyid" || fn.Parent() != nil || (fn.Name() != "Marshal" && fn.Name() != "Unmarshal") {
+			continue
+		}
+		seen := map[*ssa.Function]bool{fn: true}
+		work := []*ssa.Function{fn}
+		for len(work) > 0 {
+			g := work[len(work)-1]
+			work = work[:len(work)-1]
+			for _, b := range g.Blocks {
+				for _, ins := range b.Instrs {
+					c, ok := ins.(ssa.CallInstruction)
+					if !ok || c.Common().IsInvoke() {
+						continue
+					}
+					h := c.Common().StaticCallee()
+					if h == nil || seen[h] || h.Pkg != fn.Pkg || len(h.Blocks) == 0 {
+						continue
+					}
+					seen[h] = true
+					work = append(work, h)
+					if token.IsExported(h.Name()) && h.Signature.Recv() != nil && h.Name() != "Marshal" && h.Name() != "Unmarshal" {
+						if w.forceTransp == nil {
+							w.forceTransp = map[*ssa.Function]bool{}
+						}
+						w.forceTransp[h] = true
+					}
+				}
+			}
+		}
+	}
 }
 
 func cleanEnv() []string {
